@@ -1060,6 +1060,10 @@ Qed.
 Lemma tyb_lt tb : tyb tb -> (tb < 128)%N.
 Proof. unfold tyb. lia. Qed.
 
+Lemma map_vbytes_data (l : list ent) :
+  map (fun e : ent => VBytes (r_data (snd e))) l = map VBytes ((fun e : ent => r_data (snd e)) <$> l).
+Proof. rewrite !map_fmap, <- list_fmap_compose. reflexivity. Qed.
+
 (** GetRecords returns the specification list *)
 Lemma get_records_spec c s name typ s' v ns :
   rec_inv s -> nexec c s (GetRecords name typ) = Halt (s', v, ns) ->
@@ -1074,7 +1078,7 @@ Proof.
   exists tok, tb. eexists. split; [lia|]. split; [reflexivity|]. split; [first [eassumption|reflexivity]|].
   split; [reflexivity|]. split; [reflexivity|]. split; [reflexivity|]. f_equal.
   rewrite (find_by_type_spec _ _ _ _ Hinv). rewrite filter_all.
-  - unfold spec_recs. rewrite !map_fmap, <- list_fmap_compose. reflexivity.
+  - apply map_vbytes_data.
   - intros e He. destruct (elem_of_spec_ents_wf _ _ _ _ _ Hinv He) as [(_ & Ht & _ & Hty) _].
     apply Z.eqb_eq. rewrite Ht. symmetry. apply to_byte_small; [assumption|]. apply tyb_lt. exact Hty.
 Qed.
@@ -1195,5 +1199,313 @@ Qed.
 
 Lemma nrun_distinct ops : distinct_inv (nrun ops).
 Proof. apply nrun_from_distinct; [exact minv_empty|exact distinct_init]. Qed.
+
+(** * 9. Location: the token of a name *)
+Lemma head_filter_lookup {A} (P : A -> Prop) `{!forall x, Decision (P x)} (l : list A) :
+  match head (filter P l) with
+  | Some x => exists i, l !! i = Some x /\ P x /\ forall j y, (j < i)%nat -> l !! j = Some y -> ~ P y
+  | None => forall y, y ∈ l -> ~ P y
+  end.
+Proof.
+  induction l as [|x l IH]; [simpl; intros y Hy; inversion Hy|].
+  rewrite filter_cons. destruct (decide (P x)) as [Hp|Hn].
+  - simpl. exists 0%nat. split; [reflexivity|]. split; [exact Hp|]. intros j y Hj. lia.
+  - destruct (head (filter P l)) as [y|].
+    + destruct IH as [i (Hi & Hpy & Hlt)]. exists (S i). split; [exact Hi|]. split; [exact Hpy|].
+      intros [|j] z Hj Hz; [simpl in Hz; injection Hz as <-; exact Hn|]. simpl in Hz. apply (Hlt j); [lia|exact Hz].
+    + intros y Hy. apply elem_of_cons in Hy as [->|Hy]; [exact Hn|apply IH; exact Hy].
+Qed.
+
+(** the name made of the fragments from index [i] on *)
+Definition suffix_name (name : bytes) (i : nat) : bytes := join_dot (drop i (split_dot name)).
+
+(** [tokenIDFromName]: the longest live suffix that is not the TLD, else the
+    name itself *)
+Lemma tok_of_spec c s name tok :
+  tok_of c s name = Halt tok ->
+  valid_name name = true /\
+  ((exists i, (i < length (split_dot name) - 1)%nat /\ tok = suffix_name name i /\ live hash c s tok = true /\
+      forall j, (j < i)%nat -> live hash c s (suffix_name name j) = false) \/
+   (tok = name /\ forall j, (j < length (split_dot name) - 1)%nat -> live hash c s (suffix_name name j) = false)).
+Proof.
+  unfold token_id_from_name. destruct (valid_name name); [|disc]. cbv zeta. intros H. injection H as <-.
+  split; [reflexivity|].
+  pose proof (head_filter_lookup (fun n => live hash c s n = true)
+                (map (fun i => join_dot (drop i (split_dot name))) (seq 0 (length (split_dot name) - 1)))) as Hh.
+  destruct (head (filter (fun n => live hash c s n = true) _)) as [t|].
+  - left. destruct Hh as [i (Hi & Hl & Hlt)]. rewrite map_fmap, list_lookup_fmap in Hi.
+    destruct (seq 0 (length (split_dot name) - 1) !! i) as [i'|] eqn:Es; [|discriminate Hi].
+    apply lookup_seq in Es as [-> Hi']. simpl in Hi. injection Hi as <-.
+    exists i. split; [exact Hi'|]. split; [reflexivity|]. split; [exact Hl|].
+    intros j Hj. destruct (live hash c s (suffix_name name j)) eqn:El; [|reflexivity].
+    exfalso. apply (Hlt j (suffix_name name j)); [exact Hj| |exact El].
+    rewrite map_fmap, list_lookup_fmap, lookup_seq_lt by lia. reflexivity.
+  - right. split; [reflexivity|]. intros j Hj.
+    destruct (live hash c s (suffix_name name j)) eqn:El; [|reflexivity].
+    exfalso. apply (Hh (suffix_name name j)); [|exact El].
+    rewrite map_fmap. apply elem_of_list_fmap. exists j. split; [reflexivity|]. apply elem_of_seq. lia.
+Qed.
+
+(** a successful record mutation of [name] touches only keys under its token *)
+Lemma mutation_location c s o s' v ns name :
+  rec_inv s -> nexec c s o = Halt (s', v, ns) ->
+  (exists typ data, o = AddRecord name typ data) \/ (exists typ id data, o = SetRecord name typ id data) \/
+  (exists typ, o = DeleteRecords name typ) ->
+  exists tok, tok_of c s name = Halt tok /\
+    forall tk nk tb i, tk <> hash tok -> records s' !! (tk, nk, tb, i) = records s !! (tk, nk, tb, i).
+Proof.
+  intros Hinv H [(typ & data & ->)|[(typ & id & data & ->)|(typ & ->)]].
+  - apply add_record_spec in H as (tok & tb & Etok & _ & _ & _ & _ & _ & _ & _ & Hfr & _); [|exact Hinv].
+    exists tok. split; [exact Etok|]. intros tk nk tb' i Hne. apply Hfr; [congruence|]. unfold soa_key. congruence.
+  - apply set_record_spec in H as (tok & tb & Etok & _ & _ & _ & _ & _ & _ & _ & Hfr & _); [|exact Hinv].
+    exists tok. split; [exact Etok|]. intros tk nk tb' i Hne. apply Hfr; [congruence|]. unfold soa_key. congruence.
+  - apply delete_records_spec in H as (tok & tb & Etok & _ & _ & _ & _ & _ & Hfr & _); [|exact Hinv].
+    exists tok. split; [exact Etok|]. intros tk nk tb' i Hne. apply Hfr; [congruence|]. unfold soa_key. congruence.
+Qed.
+
+(** * 10. Conflict with records held by the parent token *)
+Lemma register_conflict c s name owner email a b d e nk tb i r :
+  records s !! (hash (suffix_name name 1), nk, tb, i) = Some r -> proper_suffix name (r_name r) = true ->
+  nexec c s (Register name owner email a b d e) = Fault.
+Proof.
+  intros Hr Hp. destruct (nexec c s (Register name owner email a b d e)) as [[[s' v] ns]|] eqn:H; [|reflexivity].
+  exfalso. unfold NNS.nexec in H. cbv zeta in H. inv1 H. inv1 H. inv1 H. inv1 H. inv1 H. inv1 H.
+  match goal with E : negb (parent_conflict _ _ _ _) = true |- _ => apply negb_true_iff, not_true_iff_false in E; apply E end.
+  unfold parent_conflict. apply existsb_exists. exists r. split; [|exact Hp].
+  apply elem_of_list_In. unfold token_records. apply elem_of_list_omap.
+  exists ((hash (suffix_name name 1), nk, tb, i), r). split; [apply elem_of_map_to_list; exact Hr|].
+  unfold suffix_name. rewrite bytes_eqb_refl. reflexivity.
+Qed.
+
+(** * 11. Expiry *)
+Lemma join_split sep s : join_with sep (split_on sep s) = s.
+Proof.
+  induction s as [|ch s IH]; [reflexivity|].
+  simpl. destruct (N.eqb_spec ch sep) as [->|Hne].
+  - simpl. destruct (split_on sep s) as [|f fs] eqn:Es; [destruct s; simpl in Es; [discriminate Es|]|].
+    + destruct (n =? sep)%N; [discriminate Es|]. destruct (split_on sep s); discriminate Es.
+    + rewrite IH. reflexivity.
+  - destruct (split_on sep s) as [|f fs] eqn:Es.
+    + exfalso. destruct s; simpl in Es; [discriminate Es|]. destruct (n =? sep)%N; [discriminate Es|].
+      destruct (split_on sep s); discriminate Es.
+    + simpl in IH |- *. destruct fs as [|g gs]; [rewrite IH; reflexivity|]. simpl. rewrite <- IH. reflexivity.
+Qed.
+
+Lemma split_on_length sep s : (1 <= length (split_on sep s))%nat.
+Proof.
+  induction s as [|ch s IH]; [simpl; lia|]. simpl. destruct (ch =? sep)%N; [simpl; lia|].
+  destruct (split_on sep s); simpl in *; lia.
+Qed.
+
+(** the expiry walk with "split on its own": the token and every enclosing
+    name (the TLD included) are stored and unexpired *)
+Lemma get_frag_ns_nil_iff c s tok :
+  (exists nst, get_frag_ns hash c s tok [] = Halt nst) <-> parent_expired hash c s 0 (split_dot tok) = false.
+Proof.
+  assert (Hpe : parent_expired hash c s 0 (split_dot tok) =
+                negb (live hash c s tok) || parent_expired hash c s 1 (split_dot tok)).
+  { unfold parent_expired. rewrite Nat.sub_0_r.
+    pose proof (split_on_length DOT tok) as Hl. unfold split_dot.
+    destruct (length (split_on DOT tok)) as [|n] eqn:El; [lia|].
+    replace (S n - 1)%nat with n by lia. cbn [seq existsb drop]. unfold join_dot. rewrite drop_0, join_split. reflexivity. }
+  rewrite Hpe. unfold get_frag_ns, get_ns_with_key, live, get_ns. split.
+  - intros [nst H]. destruct (names s !! hash tok) as [ns0|]; [|discriminate H].
+    destruct (now c >=? ns_exp ns0) eqn:Ee; [discriminate H|]. cbn [obind] in H.
+    destruct (parent_expired hash c s 1 (split_dot tok)); [discriminate H|].
+    replace (now c <? ns_exp ns0) with true by lia. reflexivity.
+  - intros H. destruct (names s !! hash tok) as [ns0|]; [|discriminate H].
+    destruct (parent_expired hash c s 1 (split_dot tok)); [rewrite orb_true_r in H; discriminate H|].
+    rewrite orb_false_r in H. apply negb_false_iff in H.
+    replace (now c >=? ns_exp ns0) with false by lia. cbn [obind]. eauto.
+Qed.
+
+Lemma readers_fault_expired c s name typ tok :
+  tok_of c s name = Halt tok -> parent_expired hash c s 0 (split_dot tok) = true ->
+  nexec c s (GetRecords name typ) = Fault /\ nexec c s (GetAllRecords name) = Fault /\
+  (N.eqb (List.last name 0%N) DOT = false -> nexec c s (Resolve name typ) = Fault).
+Proof.
+  intros Etok Hpe.
+  assert (Hf : get_frag_ns hash c s tok [] = Fault).
+  { destruct (get_frag_ns hash c s tok []) as [nst|] eqn:E; [|reflexivity].
+    assert (parent_expired hash c s 0 (split_dot tok) = false) by (apply get_frag_ns_nil_iff; eauto). congruence. }
+  split; [|split].
+  - unfold NNS.nexec. cbv zeta. destruct (negb (length (split_dot name) =? 1)%nat); [|reflexivity].
+    cbn [oassert obind]. rewrite Etok. cbn [obind]. rewrite Hf. reflexivity.
+  - unfold NNS.nexec, get_all_records. cbv zeta. destruct (negb (length (split_dot name) =? 1)%nat); [|reflexivity].
+    cbn [oassert obind]. rewrite Etok. cbn [obind]. rewrite Hf. reflexivity.
+  - intros Hdot. unfold NNS.nexec. destruct (negb (length (split_dot name) =? 1)%nat); [|reflexivity].
+    cbn [oassert obind]. cbn [resolve]. destruct (length name =? 0)%nat; [reflexivity|]. rewrite Hdot.
+    unfold get_all_records. rewrite Etok. cbn [obind]. rewrite Hf. reflexivity.
+Qed.
+
+(** * 12. Resolve *)
+(** the records of one type among all entries of a name *)
+Definition typ_recs (s : nstate) (tk nk : bytes) (typ : Z) : list bytes :=
+  if typ =? 1 then spec_recs s tk nk 1 else if typ =? 5 then spec_recs s tk nk 5
+  else if typ =? 6 then spec_recs s tk nk 6 else if typ =? 16 then spec_recs s tk nk 16
+  else if typ =? 28 then spec_recs s tk nk 28 else [].
+
+Lemma block_filter s tk nk tb typ :
+  rec_inv s ->
+  (fun e : ent => r_data (snd e)) <$>
+    filter (fun e : ent => (r_type (snd e) =? typ) = true) (spec_ents (records s) tk nk tb) =
+  if typ =? Z.of_N tb then spec_recs s tk nk tb else [].
+Proof.
+  intros Hinv. destruct (Z.eqb_spec typ (Z.of_N tb)) as [->|Hne].
+  - rewrite filter_all; [unfold spec_recs; reflexivity|]. intros e He.
+    destruct (elem_of_spec_ents_wf _ _ _ _ _ Hinv He) as [(_ & Ht & _) _]. apply Z.eqb_eq. exact Ht.
+  - rewrite filter_none; [reflexivity|]. intros e He.
+    destruct (elem_of_spec_ents_wf _ _ _ _ _ Hinv He) as [(_ & Ht & _) _]. rewrite Ht. intros Heq. apply Z.eqb_eq in Heq. lia.
+Qed.
+
+Lemma sel5 {A} (typ : Z) (l1 l5 l6 l16 l28 : list A) :
+  (if typ =? 1 then l1 else []) ++ (if typ =? 5 then l5 else []) ++ (if typ =? 6 then l6 else []) ++
+  (if typ =? 16 then l16 else []) ++ (if typ =? 28 then l28 else []) =
+  if typ =? 1 then l1 else if typ =? 5 then l5 else if typ =? 6 then l6 else if typ =? 16 then l16
+  else if typ =? 28 then l28 else [].
+Proof.
+  destruct (Z.eqb_spec typ 1) as [E1|E1], (Z.eqb_spec typ 5) as [E5|E5], (Z.eqb_spec typ 6) as [E6|E6],
+    (Z.eqb_spec typ 16) as [E16|E16], (Z.eqb_spec typ 28) as [E28|E28]; try (exfalso; lia);
+    cbn [app]; rewrite ?app_nil_r; reflexivity.
+Qed.
+
+Lemma all_ents_filter s tk nk typ :
+  rec_inv s ->
+  (fun e : ent => r_data (snd e)) <$>
+    filter (fun e : ent => (r_type (snd e) =? typ) = true) (all_ents (records s) tk nk) = typ_recs s tk nk typ.
+Proof.
+  intros Hinv. unfold all_ents. rewrite !filter_app, !fmap_app.
+  rewrite !(block_filter s tk nk _ typ Hinv). unfold typ_recs.
+  change (Z.of_N 1) with 1. change (Z.of_N 5) with 5. change (Z.of_N 6) with 6.
+  change (Z.of_N 16) with 16. change (Z.of_N 28) with 28.
+  apply sel5.
+Qed.
+
+Lemma all_ents_filter_map s tk nk typ :
+  rec_inv s ->
+  map (fun e : ent => r_data (snd e))
+    (filter (fun e : ent => (r_type (snd e) =? typ) = true) (all_ents (records s) tk nk)) = typ_recs s tk nk typ.
+Proof. intros Hinv. rewrite map_fmap. apply all_ents_filter. exact Hinv. Qed.
+
+(** [resolve] strips one trailing dot *)
+Definition strip_dot (name : bytes) : bytes :=
+  if N.eqb (List.last name 0%N) DOT then removelast name else name.
+
+(** what [resolve] sees at one visited name: its records of the requested
+    type and its CNAME target ([[]] if none) *)
+Definition rnode (c : nctx) (s : nstate) (name : bytes) (typ : Z) : outcome (list bytes * bytes) :=
+  if (length name =? 0)%nat then Fault else
+  let n := strip_dot name in
+  tok <-! tok_of c s n;
+  _ <-! get_frag_ns hash c s tok [];
+  Halt (typ_recs s (hash tok) (hash n) typ, List.last (spec_recs s (hash tok) (hash n) 5) []).
+
+(** the specification of [resolve] with an explicit budget of visited names *)
+Fixpoint resolve_spec (c : nctx) (s : nstate) (budget : nat) (name : bytes) (typ : Z) : outcome (list bytes) :=
+  match budget with
+  | O => Fault
+  | S b =>
+      hl <-! rnode c s name typ;
+      if (length (snd hl) =? 0)%nat || (typ =? T_CNAME) then Halt (fst hl)
+      else rest <-! resolve_spec c s b (snd hl) typ; Halt (fst hl ++ rest)
+  end.
+
+Lemma resolve_eq c s fuel res name typ :
+  rec_inv s ->
+  resolve hash valid_name c s fuel res name typ = (r <-! resolve_spec c s fuel name typ; Halt (res ++ r)).
+Proof.
+  intros Hinv. revert res name. induction fuel as [|fuel IH]; intros res name; [reflexivity|].
+  cbn [resolve resolve_spec]. unfold rnode. destruct (length name =? 0)%nat; [reflexivity|].
+  cbv zeta. change (if (List.last name 0 =? DOT)%N then removelast name else name) with (strip_dot name).
+  generalize (strip_dot name). intros n.
+  unfold get_all_records.
+  destruct (tok_of c s n) as [tok|]; [|reflexivity]. cbn [obind].
+  destruct (get_frag_ns hash c s tok []) as [nst|]; [|reflexivity]. cbn [obind fst snd].
+  rewrite (rec_entries_spec _ _ _ Hinv).
+  rewrite !(all_ents_filter_map s (hash tok) (hash n) typ Hinv).
+  rewrite !(all_ents_filter_map s (hash tok) (hash n) T_CNAME Hinv).
+  assert (E5 : typ_recs s (hash tok) (hash n) T_CNAME = spec_recs s (hash tok) (hash n) 5) by reflexivity.
+  rewrite E5.
+  destruct ((length (List.last (spec_recs s (hash tok) (hash n) 5) []) =? 0)%nat || (typ =? T_CNAME));
+    [reflexivity|].
+  rewrite IH. destruct (resolve_spec c s fuel _ typ) as [rest|]; [|reflexivity].
+  cbn [obind]. rewrite app_assoc. reflexivity.
+Qed.
+
+Lemma resolve_op_spec c s name typ :
+  rec_inv s ->
+  nexec c s (Resolve name typ) =
+    (_ <-! oassert (negb (length (split_dot name) =? 1)%nat);
+     r <-! resolve_spec c s 3 name typ; Halt (s, VList (map VBytes r), [])).
+Proof.
+  intros Hinv. unfold NNS.nexec. destruct (negb (length (split_dot name) =? 1)%nat); [|reflexivity].
+  cbn [oassert obind]. rewrite (resolve_eq c s 3 [] name typ Hinv).
+  destruct (resolve_spec c s 3 name typ) as [r|]; reflexivity.
+Qed.
+
+(** the CNAME list has at most one element: the link is that element *)
+Lemma link_spec s tk nk :
+  rec_inv s ->
+  (spec_recs s tk nk 5 = [] /\ List.last (spec_recs s tk nk 5) [] = []) \/
+  (exists d, spec_recs s tk nk 5 = [d] /\ List.last (spec_recs s tk nk 5) [] = d).
+Proof.
+  intros Hinv. assert (Hl : (length (spec_recs s tk nk 5) <= 1)%nat) by (apply (spec_recs_shape s tk nk 5%N Hinv); left; reflexivity).
+  destruct (spec_recs s tk nk 5) as [|d [|d' l]]; [left; auto|right; exists d; auto|simpl in Hl; lia].
+Qed.
+
+(** corollaries: chains of 0, 1, 2 links halt with the concatenation; a chain
+    of three links (cycles included) faults; an unreadable node faults *)
+Lemma resolve_spec_0 c s b name typ r0 l0 :
+  rnode c s name typ = Halt (r0, l0) -> l0 = [] \/ typ = T_CNAME ->
+  resolve_spec c s (S b) name typ = Halt r0.
+Proof.
+  intros H0 Hc. cbn [resolve_spec]. rewrite H0. cbn [obind fst snd].
+  replace ((length l0 =? 0)%nat || (typ =? T_CNAME)) with true; [reflexivity|].
+  destruct Hc as [->| ->]; [reflexivity|]. rewrite orb_true_r. reflexivity.
+Qed.
+
+Lemma resolve_spec_step c s b name typ r0 l0 :
+  rnode c s name typ = Halt (r0, l0) -> l0 <> [] -> typ <> T_CNAME ->
+  resolve_spec c s (S b) name typ = (rest <-! resolve_spec c s b l0 typ; Halt (r0 ++ rest)).
+Proof.
+  intros H0 Hl Ht. cbn [resolve_spec]. rewrite H0. cbn [obind fst snd].
+  replace ((length l0 =? 0)%nat || (typ =? T_CNAME)) with false; [reflexivity|].
+  symmetry. apply orb_false_iff. split; [destruct l0; [contradiction|reflexivity]|apply Z.eqb_neq; exact Ht].
+Qed.
+
+Lemma resolve_spec_fault_node c s b name typ :
+  rnode c s name typ = Fault -> resolve_spec c s b name typ = Fault.
+Proof. intros H0. destruct b; [reflexivity|]. cbn [resolve_spec]. rewrite H0. reflexivity. Qed.
+
+Lemma resolve_chain_1 c s name typ r0 c1 r1 l1 :
+  typ <> T_CNAME -> rnode c s name typ = Halt (r0, c1) -> c1 <> [] ->
+  rnode c s c1 typ = Halt (r1, l1) -> l1 = [] ->
+  resolve_spec c s 3 name typ = Halt (r0 ++ r1).
+Proof.
+  intros Ht H0 Hc1 H1 Hl1. rewrite (resolve_spec_step _ _ _ _ _ _ _ H0 Hc1 Ht).
+  rewrite (resolve_spec_0 _ _ _ _ _ _ _ H1 (or_introl Hl1)). reflexivity.
+Qed.
+
+Lemma resolve_chain_2 c s name typ r0 c1 r1 c2 r2 l2 :
+  typ <> T_CNAME -> rnode c s name typ = Halt (r0, c1) -> c1 <> [] ->
+  rnode c s c1 typ = Halt (r1, c2) -> c2 <> [] ->
+  rnode c s c2 typ = Halt (r2, l2) -> l2 = [] ->
+  resolve_spec c s 3 name typ = Halt (r0 ++ r1 ++ r2).
+Proof.
+  intros Ht H0 Hc1 H1 Hc2 H2 Hl2. rewrite (resolve_spec_step _ _ _ _ _ _ _ H0 Hc1 Ht).
+  rewrite (resolve_spec_step _ _ _ _ _ _ _ H1 Hc2 Ht).
+  rewrite (resolve_spec_0 _ _ _ _ _ _ _ H2 (or_introl Hl2)). reflexivity.
+Qed.
+
+Lemma resolve_chain_3 c s name typ r0 c1 r1 c2 r2 c3 :
+  typ <> T_CNAME -> rnode c s name typ = Halt (r0, c1) -> c1 <> [] ->
+  rnode c s c1 typ = Halt (r1, c2) -> c2 <> [] ->
+  rnode c s c2 typ = Halt (r2, c3) -> c3 <> [] ->
+  resolve_spec c s 3 name typ = Fault.
+Proof.
+  intros Ht H0 Hc1 H1 Hc2 H2 Hc3. rewrite (resolve_spec_step _ _ _ _ _ _ _ H0 Hc1 Ht).
+  rewrite (resolve_spec_step _ _ _ _ _ _ _ H1 Hc2 Ht).
+  rewrite (resolve_spec_step _ _ _ _ _ _ _ H2 Hc3 Ht). reflexivity.
+Qed.
 
 End Records.
